@@ -14,6 +14,7 @@ import (
 	"encoding/json"
 	"fmt"
 	"os"
+	"strings"
 	"time"
 
 	"anndbverif/idxlib"
@@ -255,6 +256,13 @@ func main() {
 	const n = 16
 	total := seq.Stats{Outcomes: map[string]int{}, Complete: true, DepthCompleted: depth}
 	samples := &ev.Samples{N: 5}
+	// a worker that dies (the sequential harness cannot evaluate an apply path that has become concurrent, for one) is a
+	// tool failure - unless another part of this check, the free-running pass above all, reports what is wrong
+	var deaths []string
+	shard.OnDeath = func(i int, tail string) {
+		deaths = append(deaths, fmt.Sprintf("worker %d/%d died: %s", i, n, strings.SplitN(strings.TrimSpace(tail), "\n", 2)[0]))
+		total.Complete = false
+	}
 	shard.Run(n, n, nil, func(i int, raw []byte) error {
 		var r result
 		if err := json.Unmarshal(raw, &r); err != nil {
@@ -277,6 +285,10 @@ func main() {
 		}
 		return nil
 	})
+	raceCov := racepass.Run(run, os.Getenv("VERIF_C04_RACE"))
+	if len(deaths) > 0 && run.NewViolations() == 0 {
+		ev.Tool("%s", strings.Join(deaths, "; "))
+	}
 	// "restarted and replayed": the replica re-reads its own group's log from the database it shares with the node's other
 	// partitions - C06's multi-group phase counts here for its isolation clauses
 	run.RunPart("log-isolation-C06", os.Getenv("VERIF_BIN_C06"), c06Keys, "VERIF_PART_PHASES=groups")
@@ -287,7 +299,6 @@ func main() {
 	// lost, slow, interrupted by a crash, or arrives together with the appends behind it), counted here for replicas that end
 	// up having applied different things
 	run.RunPart("lagging-follower-C05", os.Getenv("VERIF_BIN_C05"), c05Keys, "VERIF_PART_MODE=directed", "VERIF_TUNABLE_snapshotOffset=0")
-	raceCov := racepass.Run(run, os.Getenv("VERIF_C04_RACE"))
 	run.Assumptions = []string{
 		"free-running pass with the race detector (a sample, not exhaustive): two partitions of one process apply, snapshot and restore at the same time",
 		"the C02 alphabet (ids {a,b,c}, 3 vectors, 5 metadata shapes, single and batch forms); entries are marshalled once and fed byte-identically to every replica",
